@@ -223,6 +223,48 @@ def _handed_state(col, handed, n_steps_before, case, tag):
     return state
 
 
+class FailingMCMC(CountingMCMC):
+    """A model whose k-th step() raises (a numerical failure inside a sweep)."""
+
+    def __init__(self, fail_at, exc_type):
+        super().__init__()
+        self.fail_at, self.exc_type, self.calls = fail_at, exc_type, 0
+
+    def step(self):
+        self.calls += 1
+        if self.calls == self.fail_at:
+            raise self.exc_type("sweep failed")
+        super().step()
+
+
+def run_failing_step(p, fail_at, exc_type, col):
+    """If a step fails, sample() either lets the failure through or - should it return - has still advanced the model exactly
+    b + n*t times by step() calls and recorded at b+t, ...: a failed call that is quietly repeated shifts everything."""
+    b, t, n = p["b"], p["t"], p["n"]
+    case = dict(p, kind="failing-step", fail_at=fail_at, exc=exc_type.__name__)
+    col.evaluations += 1
+    col.states += 1
+    col.transitions += 1
+    model = FailingMCMC(fail_at, exc_type)
+    try:
+        holder = _call(model, n, p)
+    except exc_type:
+        col.refused += 1
+        col.outcome("failing-step", "propagated")
+        col.nontriv("failing-step", b, t, n, fail_at, exc_type.__name__)
+        return
+    except Exception as exc:  # noqa: BLE001
+        if not exception_origin_in_repo(exc):
+            raise
+        col.refused += 1
+        col.outcome("failing-step", "other-exception", type(exc).__name__)
+        return
+    col.outcome("failing-step", "returned", model.calls)
+    if model.calls != b + n * t:
+        col.violation("C17|schedule|failed-step-repeated", f"b={b} t={t} n={n}: step() call number {fail_at} raised {exc_type.__name__}; sample() returned a complete collection "
+                                                         f"after {model.calls} step() calls, the schedule has exactly {b + n * t}", case)
+
+
 def warm_params(p):
     c = p["n_chains"] + 1
     return {"seed": p["seed"] + 7, "n_chains": c, "index": (p["index"] + 1) % c, "b": 1, "t": 1}
@@ -426,6 +468,31 @@ def run_cli_schedule(col):
                     col.violation("C17|cli|recorded-at-wrong-steps", f"train_model b={b} t={t} n={n} ({label}): states taken after steps {taken}, expected {want}", case)
                 if not reset_before_first_step:
                     col.violation("C17|cli|not-reset", f"train_model b={b} t={t} n={n} ({label}): the model was not reset before its first step", case)
+        # the same request through the command line (twice) and through sampling.sample: one triple, one chain.  Seeds incl. 0
+        # (a seed of 0 is a seed) and the option left out (documented default 0).
+        from batchie.data import ExperimentSpace, Screen as _Screen
+        data = os.path.join(tmp, "obs.h5")
+        for seed_, argv_seed in ((0, ["--seed", 0]), (0, []), (7, ["--seed", 7])):
+            case = {"kind": "cli-schedule", "stream": True, "seed": seed_, "explicit": bool(argv_seed)}
+            outs = []
+            for rep in range(2):
+                out = os.path.join(tmp, f"stream_{rep}.h5")
+                col.evaluations += 1
+                col.transitions += 1
+                run_cli("train_model", ["--data", data, "--output", out, "--model", "SparseDrugCombo", "--model-param", "n_embedding_dimensions=2",
+                                        "--n-samples", 2, "--n-burnin", 1, "--thin", 1, "--n-chains", 2, "--chain-index", 1] + argv_seed)
+                outs.append([np.asarray(th.W).tobytes() for th in ThetaHolder.load_h5(out).thetas])
+            scr = _Screen.load_h5(data)
+            m = SCM.SparseDrugCombo(experiment_space=ExperimentSpace.from_screen(scr), n_embedding_dimensions=2)
+            m.add_observations(scr.subset_observed())
+            lib = S.sample(model=m, results=ThetaHolder(n_thetas=2), seed=seed_, n_chains=2, chain_index=1, n_burnin=1, thin=1, progress_bar=False)
+            lib = [np.asarray(th.W).tobytes() for th in lib.thetas]
+            col.outcome("cli-stream", seed_, bool(argv_seed), outs[0] == outs[1], outs[0] == lib)
+            col.nontriv("cli-stream", seed_, bool(argv_seed))
+            if outs[0] != outs[1]:
+                col.violation("C17|cli|rng|differs-for-identical-triple", f"train_model {'--seed ' + str(seed_) if argv_seed else 'without --seed'} (chain 1 of 2) run twice gives different chains", case)
+            elif outs[0] != lib:
+                col.violation("C17|cli|rng|differs-from-library", f"train_model {'--seed ' + str(seed_) if argv_seed else 'without --seed (default 0)'} (chain 1 of 2) gives another chain than sampling.sample(seed={seed_}, n_chains=2, chain_index=1) for the same request", case)
     finally:
         for n, f in saved.items():
             setattr(SCM.SparseDrugCombo, n, f)
@@ -493,6 +560,10 @@ def run_item(item, col, tier):
                           # more than 1000 / 4096 sampling iterations with thinnings that divide neither
                           (4, 3, 400), (0, 7, 500), (2, 1500, 2), (5, 999, 3), (1, 7, 700), (0, 4097, 1)]:
             run_mcmc_stub({"model": "stub", "seed": seed, "n_chains": 2, "index": 1, "b": b, "t": t, "n": n}, col)
+        for (b, t, n) in [(2, 2, 2), (0, 1, 3), (3, 1, 1)]:
+            for fail_at in range(1, b + n * t + 1):
+                for exc_type in (np.linalg.LinAlgError, FloatingPointError, ValueError):
+                    run_failing_step({"model": "stub", "seed": seed, "n_chains": 2, "index": 1, "b": b, "t": t, "n": n}, fail_at, exc_type, col)
     sampled = False
     for c in range(B["n_chains"][0], B["n_chains"][1] + 1):
         per_index = {}
@@ -533,6 +604,10 @@ def run_item(item, col, tier):
 
 def replay(case, col):
     kind = case.get("kind")
+    if kind == "failing-step":
+        p = {k_: case[k_] for k_ in ("model", "seed", "n_chains", "index", "b", "t", "n")}
+        run_failing_step(p, case["fail_at"], {"LinAlgError": np.linalg.LinAlgError, "FloatingPointError": FloatingPointError, "ValueError": ValueError}[case["exc"]], col)
+        return
     if kind == "cli-schedule":
         run_cli_schedule(col)
         return
